@@ -353,9 +353,15 @@ func (c *Ctx) finish() int {
 		ev["assumptions"] = []string{}
 	}
 	if c.Replay == "" {
-		os.MkdirAll(filepath.Join(VerifDir, "evidence"), 0755)
+		// sweeps and runs against seeded changes set VERIF_EVIDENCE_DIR so that they never
+		// overwrite the evidence of the registered commands
+		evDir := filepath.Join(VerifDir, "evidence")
+		if d := os.Getenv("VERIF_EVIDENCE_DIR"); d != "" {
+			evDir = d
+		}
+		os.MkdirAll(evDir, 0755)
 		b, _ := json.MarshalIndent(ev, "", " ")
-		os.WriteFile(filepath.Join(VerifDir, "evidence", c.ID+".json"), append(b, '\n'), 0644)
+		os.WriteFile(filepath.Join(evDir, c.ID+".json"), append(b, '\n'), 0644)
 	}
 	fmt.Printf("%s tier=%s seed=%d evaluations=%d distinct_nontrivial=%d violations=%d known=%d inconclusive=%d wall=%.1fs\n",
 		c.ID, c.Tier, c.Seed, c.evaluations, len(c.distinct), unknown, len(c.violations)-unknown, c.inconclusive, wall)
